@@ -13,3 +13,5 @@ pub mod scen_file;
 #[cfg(any(feature = "hooks", feature = "wasmonly"))]
 pub mod scen_wasm;
 pub mod scen_hist;
+#[cfg(feature = "diffsel")]
+pub mod scen_diff;
